@@ -1049,4 +1049,91 @@ theorem shares_partial (v : Int) (st en : Date) (hlt : st.y < en.y) (hT : en.ord
     push_cast
     ring_nf
 
+theorem foldl_add_rat (l : List Rat) (a : Rat) : l.foldl (· + ·) a = a + l.foldl (· + ·) 0 := by
+  induction l generalizing a with
+  | nil => simp
+  | cons x l ih => simp only [List.foldl_cons]; rw [ih (a + x), ih (0 + x)]; ring
+
+theorem sumR_cons (x : Rat) (l : List Rat) : sumR (x :: l) = x + sumR l := by
+  unfold sumR; simp only [List.foldl_cons]; rw [foldl_add_rat]; ring
+
+theorem sumR_nil : sumR [] = 0 := rfl
+
+theorem sumR_filterMap {β : Type} (f : β → Option Rat) (l : List β) :
+    sumR (l.filterMap f) = sumR (l.map fun r => (f r).getD 0) := by
+  induction l with
+  | nil => rfl
+  | cons a l ih =>
+    simp only [List.filterMap_cons, List.map_cons]
+    cases h : f a with
+    | none => simp [sumR_cons, ih]
+    | some x => simp [sumR_cons, ih]
+
+theorem sumR_map_add {β : Type} (f g : β → Rat) (l : List β) :
+    sumR (l.map fun r => f r + g r) = sumR (l.map f) + sumR (l.map g) := by
+  induction l with
+  | nil => simp [sumR_nil]
+  | cons a l ih => simp only [List.map_cons, sumR_cons, ih]; ring
+
+theorem sumTo_sumR {β : Type} (g : Nat → β → Rat) (l : List β) (k : Nat) :
+    sumTo (fun i => sumR (l.map (g i))) k = sumR (l.map fun r => sumTo (fun i => g i r) k) := by
+  induction k with
+  | zero =>
+    simp only [sumTo]
+    induction l with
+    | nil => rfl
+    | cons a l ih => simp only [List.map_cons, sumR_cons, ← ih]; ring
+  | succ k ih => simp only [sumTo, ih, sumR_map_add]
+
+theorem sumTo_zero (f : Nat → Rat) (k : Nat) (h : ∀ i, i < k → f i = 0) : sumTo f k = 0 := by
+  induction k with
+  | zero => rfl
+  | succ k ih => simp [sumTo, ih (fun i hi => h i (by omega)), h k (by omega)]
+
+theorem sumTo_split (f : Nat → Rat) (a b : Nat) :
+    sumTo f (a + b) = sumTo f a + sumTo (fun i => f (a + i)) b := by
+  induction b with
+  | zero => simp [sumTo]
+  | succ b ih => rw [← Nat.add_assoc, sumTo, ih, sumTo]; ring
+
+/-- a closed row's contribution does not depend on the rest of the frame -/
+theorem rowShare_closed (mx : Option Date) (y : Nat) (v : Int) (st : Option Date) (en : Date) :
+    rowShare mx y (v, st, some en) = rowShare none y (v, st, some en) := by
+  unfold rowShare; cases st <;> rfl
+
+theorem yearlyShare_single (r : Int × Option Date × Option Date) (y : Nat) (en : Date) (h : r.2.2 = some en) :
+    yearlyShare [r] y = (rowShare none y r).getD 0 := by
+  obtain ⟨v, st, e⟩ := r
+  simp only at h; subst h
+  unfold yearlyShare
+  simp only [List.filterMap_cons, List.filterMap_nil]
+  rw [rowShare_closed]
+  cases rowShare none y (v, st, some en) <;> simp [sumR_cons, sumR_nil]
+
+theorem yearlyShare_closed_frame (rows : List (Int × Option Date × Option Date)) (y : Nat)
+    (h : ∀ r ∈ rows, ∃ en, r.2.2 = some en) :
+    yearlyShare rows y = sumR (rows.map fun r => yearlyShare [r] y) := by
+  unfold yearlyShare
+  rw [sumR_filterMap]
+  congr 1
+  apply List.map_congr_left
+  intro r hr
+  obtain ⟨en, he⟩ := h r hr
+  have := yearlyShare_single r y en he
+  unfold yearlyShare at this
+  rw [this]
+  obtain ⟨v, st, e⟩ := r
+  simp only at he; subst he
+  rw [rowShare_closed]
+
+
+theorem foldl_add_int_cast (l : List Int) (a : Int) :
+    ((l.foldl (· + ·) a : Int) : Rat) = (a : Rat) + sumR (l.map fun x : Int => (Int.cast x : Rat)) := by
+  induction l generalizing a with
+  | nil => simp [sumR_nil]
+  | cons x l ih => simp only [List.foldl_cons, List.map_cons, sumR_cons]; rw [ih, Int.cast_add]; ring
+
+theorem sumI_eq_sumR (l : List Int) : sumI l = sumR (l.map fun x : Int => (Int.cast x : Rat)) := by
+  unfold sumI; rw [foldl_add_int_cast]; simp
+
 end LdarModel.Summary
